@@ -204,7 +204,7 @@ ROUND7: dict[str, str] = {
     "C14": "Sixth seeded round: evaluate() of an @unevaluated class (27 read) and the package helpers that receive its arguments never substitute FOR an own argument with xreplace / subs / replace (R-EVALSUBST); a `none` token stored for a None argument passes the guards of the same __new__ (R-REENTRANT, shared with C15). Fifth seeded round: the argument hook is interpreted on field layouts with optional fields too (instance holds the default object itself / another value, every combination for up to two optional trailing fields).",
     "C15": "Sixth seeded round: R-REENTRANT also for the `none`-token conversion. Fifth seeded round: as C14 - the pickle arguments may leave out only trailing fields that hold their default.",
     "C18": "Fifth seeded round: along __new__ / evaluate / cleanup / doit and the package functions they call (roles: pairs, pools, pool, value, symbols propagated through locals, comprehensions and call arguments), the values of a pool are never collapsed to the distinct ones (set, dict key, dict.fromkeys) and then iterated, counted or returned (R-MULTISET); a memo that is only looked up is accepted; collapsing plus counting is undecided.",
-    "C20": "Fifth seeded round: Kibble compared with a non-zero number (also through a parameter's default) is a violation - the indicator's boundary is Kibble = 0.",
+    "C20": "Sixth seeded round: a module-level memo of kinematics/phasespace.py has every parameter the stored value depends on in its key (R-MEMOKEY; reaching definitions). Fifth seeded round: Kibble compared with a non-zero number (also through a parameter's default) is a violation - the indicator's boundary is Kibble = 0.",
 }
 for _pid, _text in ROUND7.items():
     META[_pid]["level"] += " " + _text
